@@ -148,6 +148,38 @@ def run(rep, tier, seed, tr_errors):
             bad.append((dict(weights=w.tolist()), "values on zero-weight points change the offset: %r vs %r" % (o1, o2)))
         if abs(o1 - c) > 0.05:
             bad.append((dict(weights=w.tolist()), "offset %r far from the generating constant %r" % (o1, c)))
+    # (4b) the same clause through perform_zhit with a NAMED window: the modulus is corrupted only where the requested window
+    # (centre +- width/2 in log10 f) gives zero weight; the reconstruction must be the one obtained from the clean spectrum
+    for it in range(4 if tier == "quick" else 30):
+        n_exp = rng.uniform(0.6, 0.95)
+        cdc = "Q{Y=%.6e,n=%.4f}" % (10 ** rng.uniform(-6, -3), n_exp)
+        f = np.logspace(4, -2, 61)
+        Z = parse_cdc(cdc).get_impedances(f)
+        win = rng.choice(["boxcar", "hann", "triang", "hamming"])
+        center, width = rng.choice([(3.0, 1.0), (2.5, 2.0), (0.0, 1.5), (1.0, 3.0), (-1.0, 1.0)])
+        lo, hi = center - width / 2, center + width / 2
+        outside = (np.log10(f) < lo - 1e-9) | (np.log10(f) > hi + 1e-9)
+        if not outside.any() or outside.all():
+            continue
+        Zc = Z.copy()
+        Zc[outside] = Zc[outside] * rng.choice([1.5, 0.4, 3.0])      # same phase, wrong modulus, only where the weight is zero
+        adm = rng.random() < 0.5
+        desc = dict(cdc=cdc, points=61, f_max=1e4, f_min=1e-2, options=dict(window=win, center=center, width=width, admittance=adm),
+                    corrupted_modulus_outside_log10_f=[lo, hi])
+        try:
+            ra = zhit(f, Z, smoothing="none", interpolation="akima", admittance=adm, window=win, center=center, width=width)
+            rb = zhit(f, Zc, smoothing="none", interpolation="akima", admittance=adm, window=win, center=center, width=width)
+        except Exception as e:  # noqa
+            bad.append((desc, "raised %s: %s" % (type(e).__name__, str(e)[:120])))
+            continue
+        stats["offset_cases"] += 1
+        rep.evaluations += 2
+        dev = float(np.max(abs(rb.impedances / ra.impedances - 1)))
+        if dev > 1e-6:
+            bad.append((desc, "the modulus of points outside the requested window (zero weight) changes the reconstruction by %.3g" % dev))
+        tru = float(np.max(abs(abs(ra.impedances) / abs(Z) - 1)))
+        if tru > TOL_EXACT:
+            bad.append((desc, "constant-phase spectrum with a named window: reconstructed modulus off by %.3g" % tru))
     # (5) smoothing of constant and linear data
     known_hits = set()
     for n in ((21, 41) if tier == "quick" else (21, 41, 71, 101)):
